@@ -382,6 +382,13 @@ def run(rep, prog, tier):
             tcomps = n.target.slice.elts if isinstance(n.target.slice, ast.Tuple) else [n.target.slice]
             merged = tcomps[0]
             okt = isinstance(merged, ast.BinOp) and isinstance(merged.op, ast.Add)
+            if not (okt and all(isinstance(x, ast.Name) and x.id in bounds for x in (merged.left, merged.right))):
+                # the accumulation is not of the form fs2[i+j, k] += fs_tmp[...] over three named loops (e.g. one routine for every pair
+                # after a transposition): this rule does not apply
+                rep.ob('R-IDX', 'Misc.combine_pops accumulation', False, 'accumulation %s not recognised' % ast.unparse(n)[:80], mm.rel, n.lineno,
+                       what='each loop variable ranges over the extent of the axis it indexes; merged index is the sum of the pair')
+                nb += 1
+                continue
             nb += 1
             # merged axes and the result shape
             pair = sorted(bounds[x.id] for x in (merged.left, merged.right)) if okt else None
